@@ -34,7 +34,7 @@ STATIC_SITE_ERRORS = {
 FAULT_CLASS = {
     "multiple-readme": "MultipleReadmeError", "readme-missing-title": "ReadmeMissingTitleError",
     "readme-malformed-title": "ReadmeMalformedTitleError", "recipe-missing-title": "RecipeMissingTitleError",
-    "compile": "RecipeInDirectoryCompileError", "max-servings": "MaxServingsLowerThanLargestRecipeError",
+    "compile": "RecipeInDirectoryCompileError", "title-with-scaled-value": "RecipeMissingTitleError", "max-servings": "MaxServingsLowerThanLargestRecipeError",
     "link-outside-dots": "LinkToExternalFileError", "link-outside-abs-symlink": "LinkToExternalFileError",
     "link-outside-rel-symlink": "LinkToExternalFileError", "link-outside-dir-symlink": "LinkToExternalFileError",
     "link-outside-encoded": "LinkToExternalFileError", "link-missing": "LinkToNonExistentFileError",
@@ -674,7 +674,21 @@ def oracle_pages(site: Dict[str, Any], obs: Dict[str, Any], real: Dict[str, Any]
             labels = [x[0] for x in pg[lst_name]]
             if labels != sorted(labels):
                 return f"{path}: {lst_name} list is not in title order: {labels}"
-    return oracle_linear_scaling(site, obs, exp, facts)
+    v = oracle_linear_scaling(site, obs, exp, facts)
+    if v is not None:
+        return v
+    # every {..} expression of the prose (also one wrapped over two source lines) is replaced by a scaled value
+    for path, e in exp.items():
+        if e[0] != "rec":
+            continue
+        raw = obs.get("_raw", {}).get(path)
+        if raw is None:
+            continue
+        visible = _re.sub(r"<[^>]*>", "", raw.decode("utf-8", "replace"))
+        m = _re.search(r"\{\s*[0-9][^{}]{0,30}", visible)
+        if m:
+            return f"{path}: the expression {m.group(0)!r}... of the recipe's prose is shown literally, not as a scaled value"
+    return None
 
 
 def oracle_assets(site: Dict[str, Any], obs: Dict[str, Any], real: Dict[str, Any]) -> Optional[str]:
@@ -711,6 +725,45 @@ def oracle_assets(site: Dict[str, Any], obs: Dict[str, Any], real: Dict[str, Any
             return f"asset {k}: no regular file {rel!r} below the source root"
         if open(src, "rb").read().hex() != hx:
             return f"asset {k}: bytes differ from the source file"
+    return None
+
+
+def oracle_asset_set(site: Dict[str, Any], obs: Dict[str, Any], real: Dict[str, Any], facts: Dict[str, Any]) -> Optional[str]:
+    """C16: exactly the local files the documents link to are copied (one copy each, at their own relative path) -
+    e.g. a link to 'c++tips.txt' copies that file and not 'c  tips.txt'."""
+    if "error" in obs:
+        return None
+    want = set()
+    for d in real["dirs"]:
+        docs = []
+        if d["readme"] and d["rel"] != [] or (d["readme"] and d["rel"] == []):
+            docs.append(("readme", d["readme"]))
+        for nm in d["recipes"]:
+            docs.append(("recipe", nm))
+        for kind, nm in docs:
+            pth = os.path.join(d["real"], nm)
+            try:
+                text = open(pth, encoding="utf-8").read()
+            except OSError:
+                return None
+            if kind == "readme":
+                f = facts["readmes"].get(text)
+                if f is None:
+                    return None
+                urls = [x[1] for x in f["links"]]
+            else:
+                f = facts["recipes"].get(text)
+                if f is None or f["err"]:
+                    return None
+                urls = [i[2] for i in f["items"] if i[0] == "L"]
+            for u in urls:
+                t = intended_target(site, real, facts, d["real"], "categories/x.html", u)
+                if t is not None and t[0] == "asset":
+                    want.add(t[1])
+    got = set(obs["assets"])
+    if got != want:
+        return (f"copied assets differ from the linked local files: missing {sorted(want - got)[:3]} "
+                f"unexpected {sorted(got - want)[:3]}")
     return None
 
 
@@ -829,6 +882,8 @@ def run_and_judge(site: Dict[str, Any], seed: int, which: str, facts: Dict[str, 
             viol = oracle_pages(site, obs, real, facts)
         elif which == "C16":
             viol = oracle_assets(site, obs, real)
+            if viol is None and site.get("profile") == "valid":
+                viol = oracle_asset_set(site, obs, real, facts)
         if viol is None and which in ("C15", "C17"):
             viol = oracle_residue(obs.get("_raw", {}))
         return obs, viol
@@ -974,6 +1029,13 @@ def oracle_alone(site: Dict[str, Any], base: str, a: Dict[str, Any], o: Dict[str
                 break
             tgt_unres = os.path.join(root, *p.split("/")[1:]) if p.startswith("/") else os.path.join(os.path.dirname(fpath), *p.split("/"))
             tgt = os.path.realpath(tgt_unres)
+            try:
+                os.path.realpath(tgt_unres, strict=True)
+            except OSError as ex:
+                import errno
+                if ex.errno == errno.ELOOP:
+                    want_err = "known-f15"      # a link through a symbolic-link loop: a documented error is due (F15)
+                    break
             if not (tgt == root or tgt.startswith(root + os.sep)):
                 want_err = "LinkToExternalFileError"
                 break
@@ -983,7 +1045,13 @@ def oracle_alone(site: Dict[str, Any], base: str, a: Dict[str, Any], o: Dict[str
             expect.append((mimetypes.guess_type(tgt)[0] or "application/octet-stream", open(tgt, "rb").read()))
     if want_err == "known-f13":
         return None if o.get("error") in STATIC_SITE_ERRORS else f"f13: aborted with builtin {o.get('error')}"
+    if want_err == "known-f15":
+        return None if o.get("error") in STATIC_SITE_ERRORS else f"f15: aborted with builtin {o.get('error')}"
     if want_err is not None:
+        if o.get("error") == "RuntimeError":
+            return "f15: aborted with builtin RuntimeError"
+        if o.get("error") == "ValueError":
+            return "f13: aborted with builtin ValueError"
         return None if o.get("error") == want_err else f"expected {want_err}, got {o.get('error', 'a page')}"
     if "error" in o:
         if o["error"] == "RuntimeError":
@@ -1113,6 +1181,27 @@ def pick_alone_sibling(rng: random.Random, site: Dict[str, Any]) -> Optional[Dic
         head = "# Sibling"
     n["text"] = head + "\n\nSee " + G.md_link(rng, url, rng.random() < 0.4) + "\n\n    2 eggs\n"
     site["alone_fault"] = "sibling-" + form
+    return {"file": list(p), "scale": None, "servings": None, "embed": True}
+
+
+def pick_alone_large(rng: random.Random, site: Dict[str, Any]) -> Optional[Dict[str, Any]]:
+    """A stand-alone page embedding a file strictly larger than 64 KiB (65537, 70000, 131073 bytes)."""
+    recs = [(p, n) for p, n in G.walk(site["base"]) if n["k"] == "f" and "text" in n and p[0] == "src"
+            and G.is_md_name(n["name"]) and not G.is_readme_name(n["name"])]
+    if not recs:
+        return None
+    p, n = rng.choice(recs)
+    here = G.find(site["base"], p[:-1])
+    assert here is not None
+    size = rng.choice([65537, 65537, 70000, 131073])
+    blob = rng.randbytes(size)
+    nm = rng.choice(["big photo.jpg", "big+data.bin", "large"])
+    here["ch"] = [ch for ch in here["ch"] if ch["name"] != nm] + [G.F(nm, data=blob)]
+    head = n["text"].split("\n\n")[0]
+    if not head.startswith("# "):
+        head = "# Large"
+    n["text"] = head + "\n\nSee " + G.md_link(rng, quote(nm, safe="+"), rng.random() < 0.5) + "\n\n    2 eggs\n"
+    site["alone_fault"] = "large-file-%d" % size
     return {"file": list(p), "scale": None, "servings": None, "embed": True}
 
 
@@ -1337,6 +1426,10 @@ def make_history_case(site: Dict[str, Any], steps: List[Dict[str, Any]], seed: i
             else:
                 random.seed(st.get("rng", 0))
                 o = _alone_call(base, cur, st)
+                if viol is None and "alone" in oracles:
+                    viol = oracle_alone(cur, base, st, o, facts)
+                    if viol is not None:
+                        viol = f"stand-alone page #{len(obs_terms) + 1} of the history: " + viol
                 step_terms.append(f"(HAlone {coq_alone_args(st)})")
                 obs_terms.append(f"(HAl {coq_alone_obs(o)})")
                 digest.append({kk: vv for kk, vv in o.items() if kk not in ("_html", "refs")})
@@ -1498,6 +1591,14 @@ def gen_history(rng: random.Random, site: Dict[str, Any]) -> List[Dict[str, Any]
                 break
     if steps[-1]["op"] != "gen":
         steps.append({"op": "gen", "M": site["M"], "order": rng.randrange(10 ** 6), "rng": rng.randrange(10 ** 6)})
+    # last: a recipe gets a first heading with a {..} value in the middle - no title can be taken from it; the long-lived
+    # and the fresh process must agree on that
+    cands = [(p, n) for p, n in recs if not G.is_readme_name(n["name"])]
+    if cands and rng.random() < 0.3:
+        p, _n = rng.choice(cands)
+        steps.append({"op": "write", "file": list(p), "text": rng.choice(["# Pancakes {3} ways for 2\n\nText {2}\n",
+                                                                          "# Feeds about {4} people\n\n    2 eggs\n"])})
+        steps.append({"op": "gen", "M": site["M"], "order": rng.randrange(10 ** 6), "rng": rng.randrange(10 ** 6)})
     return steps
 
 
@@ -1528,6 +1629,10 @@ def _site_job(args: Tuple[str, int, int, str, str]) -> Case:
 def _alone_job(args: Tuple[int, int, str]) -> Optional[Case]:
     seed, i, profile = args
     rng = random.Random((seed * 1000003 + i) * 7 + 5)
+    if profile == "large":
+        site = G.gen_site(rng, "valid", "small")
+        a = pick_alone_large(rng, site)
+        return None if a is None else make_alone_case(site, a, seed * 100000 + i)
     site = G.gen_site(rng, profile, rng.choice(["small", "small", "medium"]))
     if profile == "valid" and rng.random() < 0.6:
         add_local_links(rng, site)
@@ -1538,6 +1643,8 @@ def _alone_job(args: Tuple[int, int, str]) -> Optional[Case]:
         a = pick_alone_sibling(rng, site)
     elif profile == "valid" and r < 0.65:
         a = pick_alone_symlink(rng, site)
+    elif profile == "valid" and r < 0.71:
+        a = pick_alone_large(rng, site)
     else:
         a = pick_alone(rng, site)
     if a is None:
@@ -1588,6 +1695,7 @@ def gen_site_cases(which: str, seed: int, plan: Sequence[Tuple[str, str, int]]) 
 def gen_alone_cases(seed: int, n_valid: int, n_err: int) -> List[Case]:
     jobs = [(seed, i, "valid") for i in range(n_valid)] + [(seed, 10000 + i, rng_prof) for i, rng_prof in
                                                              enumerate(["errors", "f13", "f15"] * ((n_err + 2) // 3))][:n_valid + n_err]
+    jobs += [(seed, 20000 + i, "large") for i in range(max(2, n_valid // 25))]
     return [x for x in pmap(_alone_job, jobs) if x is not None]
 
 
@@ -1608,10 +1716,10 @@ def ensure_linked_asset(rng: random.Random, site: Dict[str, Any]) -> Optional[Tu
     return ("src",) + tuple(ap)
 
 
-def _asset_history_job(args: Tuple[int, int]) -> Optional[Case]:
+def _asset_history_job(args: Tuple[int, int, bool]) -> Optional[Case]:
     """generate; replace a linked asset by other bytes of the SAME length with the old timestamps; generate again INTO
     THE SAME OUTPUT DIRECTORY: the copy must be the new bytes"""
-    seed, i = args
+    seed, i, fresh = args
     rng = random.Random((seed * 1000003 + i) * 7 + 4)
     site = G.gen_site(rng, "valid", rng.choice(["small", "small", "medium"]))
     if site["M"] > 4:
@@ -1626,15 +1734,81 @@ def _asset_history_job(args: Tuple[int, int]) -> Optional[Case]:
     data = bytes.fromhex(node["hex"])
     for _ in range(rng.randrange(1, 3)):
         new = bytes((b + rng.randrange(1, 255)) % 256 for b in data)
-        steps.append({"op": "write", "file": list(ap), "hex": new.hex(), "keep_times": rng.random() < 0.8})
+        steps.append({"op": "write", "file": list(ap), "hex": new.hex(), "keep_times": rng.random() < 0.6})
         steps.append({"op": "gen", "M": site["M"], "order": rng.randrange(10 ** 6), "rng": rng.randrange(10 ** 6),
                       "reuse_out": True})
         data = new
-    return make_history_case(site, steps, seed * 100000 + i, fresh=False, oracles=("assets",))
+    return make_history_case(site, steps, seed * 100000 + i, fresh=fresh, oracles=("assets",))
 
 
-def gen_asset_history_cases(seed: int, n: int) -> List[Case]:
-    return [x for x in pmap(_asset_history_job, [(seed, i) for i in range(n)]) if x is not None]
+def gen_asset_history_cases(seed: int, n: int, fresh: bool = False) -> List[Case]:
+    return [x for x in pmap(_asset_history_job, [(seed, i, fresh) for i in range(n)]) if x is not None]
+
+
+def _alone_history_job(args: Tuple[int, int]) -> Case:
+    """Several stand-alone pages in ONE process: a page whose root contains F embeds it; a page in a sub-directory
+    (smaller root) that reaches F through '../' must be refused; after F is rewritten the first page shows the new
+    bytes."""
+    seed, i = args
+    rng = random.Random((seed * 1000003 + i) * 7 + 10)
+    site = G.gen_site(rng, "valid", "small")
+    src = [c_ for c_ in site["base"]["ch"] if c_["name"] == "src"][0]
+    fname = rng.choice(["F.bin", "shared pic.png", "c++tips.txt", "data"])
+    sub = rng.choice(["inner", "sub dir", "src2"])
+    data = bytes(rng.randrange(256) for _ in range(rng.randrange(4, 30)))
+    src["ch"] = [ch for ch in src["ch"] if ch["name"] not in (fname, sub, "top page.md")]
+    ups = rng.choice(["../", "../", "..//", "%2E%2E/"])
+    inner_text = "# Inner for 2\n\nSee " + G.md_link(rng, ups + quote(fname, safe="+"), rng.random() < 0.5) + "\n\n    2 eggs\n"
+    top_text = "# Top for 2\n\nSee " + G.md_link(rng, quote(fname, safe="+"), rng.random() < 0.5) + "\n\n    1 egg\n"
+    src["ch"] += [G.F(fname, data=data), G.F("top page.md", text=top_text), G.D(sub, [G.F("inner page.md", text=inner_text)])]
+    top = {"op": "alone", "file": ["src", "top page.md"], "scale": None, "servings": None, "embed": True, "rng": 1}
+    inner = {"op": "alone", "file": ["src", sub, "inner page.md"], "scale": None, "servings": None, "embed": True, "rng": 2}
+    new = bytes(rng.randrange(256) for _ in range(rng.choice([len(data), len(data) + 3])))
+    steps = [dict(top), dict(inner), {"op": "write", "file": ["src", fname], "hex": new.hex(), "keep_times": len(new) == len(data)},
+             dict(top), dict(inner)]
+    if rng.random() < 0.5:
+        steps = steps[1:2] + steps[0:1] + steps[2:]
+    return make_history_case(site, steps, seed * 100000 + i, fresh=False, oracles=("alone",))
+
+
+def gen_alone_history_cases(seed: int, n: int) -> List[Case]:
+    return pmap(_alone_history_job, [(seed, i) for i in range(n)])
+
+
+def _add_sources_history_job(args: Tuple[int, int]) -> Case:
+    """build; ADD recipes (and links to them from readmes / other recipes); rebuild into the SAME output directory:
+    the result must be the site of the new tree - every new page linked and reachable"""
+    seed, i = args
+    rng = random.Random((seed * 1000003 + i) * 7 + 11)
+    site = G.gen_site(rng, "valid", rng.choice(["small", "medium"]))
+    if site["M"] > 4:
+        site["M"] = rng.randrange(2, 5)
+    M = site["M"]
+    src = [c_ for c_ in site["base"]["ch"] if c_["name"] == "src"][0]
+    dirs = [((), src)] + [(p, n) for p, n in G.walk(src) if n["k"] == "d"]
+    g = {"op": "gen", "M": M, "order": None, "rng": rng.randrange(10 ** 6), "reuse_out": True}
+    steps: List[Dict[str, Any]] = [dict(g)]
+    for r_ in range(rng.randrange(1, 3)):
+        for k in range(rng.randrange(1, 3)):
+            dp, dn = rng.choice(dirs)
+            nm = "added %d-%d.md" % (r_, k)
+            if any(ch["name"] == nm for ch in dn["ch"]):
+                continue
+            serv = rng.choice([None, rng.randrange(1, M + 1)])
+            text = "# " + rng.choice(G.TITLES) + ("" if serv is None else " for %d" % serv) + "\n\nNew {%d}\n\n    3 eggs\n" % rng.randrange(2, 9)
+            steps.append({"op": "write", "file": ["src"] + list(dp) + [nm], "text": text})
+            # a link to the new recipe from an existing document of the same directory
+            docs = [ch for ch in dn["ch"] if ch["k"] == "f" and "text" in ch and G.is_md_name(ch["name"])]
+            if docs and rng.random() < 0.7:
+                d0 = rng.choice(docs)
+                steps.append({"op": "write", "file": ["src"] + list(dp) + [d0["name"]],
+                              "text": d0["text"].rstrip("\n") + "\n\nSee also [the new one](" + quote(nm, safe="") + ")\n"})
+        steps.append(dict(g, rng=rng.randrange(10 ** 6)))
+    return make_history_case(site, steps, seed * 100000 + i, fresh=True, oracles=("links",))
+
+
+def gen_add_sources_history_cases(seed: int, n: int) -> List[Case]:
+    return pmap(_add_sources_history_job, [(seed, i) for i in range(n)])
 
 
 def _noise_history_job(args: Tuple[int, int]) -> Case:
